@@ -436,6 +436,10 @@ KILL_CFGS = [
     {"kind": "std", "model": "G2", "seed": 0, "kwargs": {"nlive": 10, "poolsize": 10, "checkpoint_interval": 5, "maximum_uninformed": 10}},
     {"kind": "ins", "model": "G2", "seed": 0, "kwargs": {"max_iteration": 3}},
     {"kind": "ins", "model": "G2hole", "seed": 0, "kwargs": {"max_iteration": 2, "save_log_q": True, "draw_iid_live": False}},
+    # time-triggered checkpoints: deterministic under the virtual clock (1 s per evaluated point),
+    # and the first checkpoint opportunity after a resume sees the whole down time
+    {"kind": "std", "model": "G2", "seed": 0, "kwargs": {"nlive": 10, "poolsize": 10, "checkpoint_on_iteration": False, "checkpoint_interval": 15, "maximum_uninformed": 10}},
+    {"kind": "ins", "model": "G2", "seed": 0, "kwargs": {"max_iteration": 3, "checkpoint_on_iteration": False, "checkpoint_interval": 120}},
 ]
 
 
